@@ -152,6 +152,37 @@ mod verif_standins_keygen {
     #[test] fn standin_keygen() { sweep::<1>(); sweep::<2>(); sweep::<5>(); }
 }
 
+// decode-time validation of keys: an identity atom anywhere in a public key is refused
+#[cfg(all(test, feature = "bincode"))]
+mod verif_standins_decode {
+    use super::*;
+    use rand::SeedableRng;
+    fn check<const N: usize>() {
+        let mut rng = rand::rngs::StdRng::seed_from_u64(0xc15);
+        let kp = KeyPair::<N>::new(&mut rng);
+        let bytes = bincode::serialize(kp.public_key()).unwrap();
+        let back: PublicKey<N> = bincode::deserialize(&bytes).expect("STANDIN PublicKey decode: honest key refused");
+        assert!(&back == kp.public_key(), "STANDIN PublicKey decode: round trip changed the key");
+        assert_eq!(bytes.len(), 48 + 8 + 48 * N + 96 + 96 + 8 + 96 * N, "STANDIN PublicKey encoding: unexpected layout (the stand-in assumes g1, [len] y1s, g2, x2, [len] y2s)");
+        // atom offsets: g1 | len | y1s[0..N] | g2 | x2 | len | y2s[0..N]
+        let mut atoms: Vec<(String, usize, usize)> = vec![("g1".into(), 0, 48)];
+        for i in 0..N { atoms.push((format!("Y_{}", i), 56 + 48 * i, 48)); }
+        let o = 56 + 48 * N;
+        atoms.push(("g2".into(), o, 96)); atoms.push(("X~".into(), o + 96, 96));
+        for i in 0..N { atoms.push((format!("Y~_{}", i), o + 200 + 96 * i, 96)); }
+        for (name, off, len) in atoms {
+            let mut b = bytes.clone();
+            for k in 0..len { b[off + k] = 0; }
+            b[off] = 0xc0; // compressed encoding of the identity
+            assert!(bincode::deserialize::<PublicKey<N>>(&b).is_err(), "STANDIN PublicKey decode: a key whose {} is the identity was accepted (N = {})", name, N);
+        }
+        let sk_bytes = bincode::serialize(&kp).unwrap();
+        let back: KeyPair<N> = bincode::deserialize(&sk_bytes).expect("STANDIN KeyPair decode: honest key pair refused");
+        assert!(back == kp, "STANDIN KeyPair decode: round trip changed the key pair");
+    }
+    #[test] fn standin_key_decode_validation() { check::<1>(); check::<3>(); check::<5>(); }
+}
+
 // test-only constructor for the stand-ins of sibling modules
 #[cfg(test)]
 pub(crate) mod standin_access_impl {
